@@ -346,7 +346,18 @@ class stub_zstandard:
 
 # the real bytecode over the stubs (built at import time)
 gz_stubbed = reglobalize(cod._decompress_body_gzip, zlib=_ZLIB, _DECOMPRESS_CHUNK_BYTES=_CHUNK)
-zs_stubbed = reglobalize(cod._decompress_body_zstd, _DECOMPRESS_CHUNK_BYTES=_CHUNK)  # zstandard via sys.modules
+_ZS_EXTRA: dict = {}
+if hasattr(cod, "_zstd_frame_complete") and "_zstd_frame_complete" in cod._decompress_body_zstd.__code__.co_names:
+    # A frame-completeness predicate over the raw frame bytes (block-header walk) cannot run on an opaque
+    # frame: it is replaced by its contract.  Its own correctness is exercised by the real replays only.
+    def _frame_complete_contract(data: object) -> bool:
+        if not isinstance(data, _Frame):
+            raise HarnessModelError("frame-completeness predicate called on something that is not the frame")
+        return not data.truncated
+
+    _ZS_EXTRA["_zstd_frame_complete"] = _frame_complete_contract
+    ASSUMPTIONS.append("_zstd_frame_complete (present in this tree) := contract 'True iff the frame reaches its last block' — the block-header walk itself is outside the claim")
+zs_stubbed = reglobalize(cod._decompress_body_zstd, _DECOMPRESS_CHUNK_BYTES=_CHUNK, **_ZS_EXTRA)  # zstandard via sys.modules
 decompress_stubbed = reglobalize(cod.decompress, _decompress_body_gzip=gz_stubbed, _decompress_body_zstd=zs_stubbed)
 gzc_stubbed = reglobalize(cod._compress_body_gzip, zlib=_ZLIB)
 compress_stubbed = reglobalize(cod.compress, _compress_body_gzip=gzc_stubbed)
